@@ -167,6 +167,44 @@ pub fn gen_step(s: &mut Hub, rng: &mut Rng, ctx: &mut Ctx) -> Step {
             return Step { actor: late_user, op: Op::Claim, adv_ns, adv_blocks, fault: Fault::None };
         }
     }
+    // ---- the returning bonder: an address that claimed, unbonded everything and comes back right after an epoch
+    // was created on schedule (same whole second as the epoch's start), WITHOUT claiming first. The lair has to
+    // refuse that bonding while the new epoch is claimable for the stale cursor; if it does not, the claim that
+    // follows pays the returner for an epoch whose snapshot does not contain it.
+    if let Some(e) = s.model.epochs.last() {
+        let i = s.model.epochs.len() - 1;
+        let start = e.start_time.nanos();
+        if s.model.created_at[i] == now && now >= start && now - start < 1_000_000_000 {
+            let back: Vec<usize> = (0..n).filter(|u| s.model.has_cursor[*u] && s.model.ever_bonded[*u] && s.bonded_total(*u) == 0).collect();
+            if !back.is_empty() && rng.chance(1, 2) {
+                let u = *rng.pick(&back);
+                ctx.probe("returning_bonder_right_after_epoch_creation_generated");
+                let adv_ns = *rng.pick(&[0u64, 1, 2, 1000]);
+                let adv_ns = if now + adv_ns - start >= 1_000_000_000 { 0 } else { adv_ns };
+                return Step { actor: u, op: Op::Bond { denom: rng.idx(2), amount: *rng.pick(&[1u128, 500_000, 1_000_000]) }, adv_ns, adv_blocks: 0, fault: Fault::None };
+            }
+        }
+        // (somebody has to leave first: an address with a cursor unbonds everything now and then)
+        if rng.chance(1, 14) {
+            let leavers: Vec<(usize, usize)> = (0..n)
+                .filter(|u| s.model.has_cursor[*u])
+                .flat_map(|u| (0..2usize).map(move |d| (u, d)))
+                .filter(|(u, d)| s.model.bonded[*u][*d] > 0 && s.model.bonded[*u][1 - *d] == 0)
+                .collect();
+            if !leavers.is_empty() {
+                let (u, d) = *rng.pick(&leavers);
+                ctx.probe("full_unbond_of_an_address_with_cursor_generated");
+                return Step { actor: u, op: Op::Unbond { denom: d, amount: s.model.bonded[u][d] }, adv_ns: 0, adv_blocks: 0, fault: Fault::None };
+            }
+        }
+        // ... and the claim that follows such a return (or any fresh bonding of an address with a cursor)
+        let fresh: Vec<usize> = (0..n).filter(|u| s.model.has_cursor[*u] && s.bonded_total(*u) > 0 && s.model.began[*u].map(|t| t >= start && now.saturating_sub(t) < 1_000_000_000).unwrap_or(false)).collect();
+        if !fresh.is_empty() && rng.chance(1, 2) {
+            let u = *rng.pick(&fresh);
+            ctx.probe("claim_right_after_fresh_bonding_generated");
+            return Step { actor: u, op: Op::Claim, adv_ns: *rng.pick(&[0u64, 1, 1_000_000_000]), adv_blocks: 0, fault: Fault::None };
+        }
+    }
     // one more op kind than `Cfg::weights` has slots for
     const W_SET_DURATION: usize = N_OPS;
     const W_SET_DIST: usize = N_OPS + 1;
